@@ -79,7 +79,7 @@ def subterms(t):
     return out
 
 
-HEADS = {"ph", "dw", "dwv", "sp", "full", "zeros", "ones", "eye", "arange", "py",
+HEADS = {"ph", "dw", "dwv", "dwalias", "sp", "full", "zeros", "ones", "eye", "arange", "py",
          "nps", "neg", "abs", "lnot", "fn", "bin", "cmp", "logic", "mm", "arctan2",
          "where", "astype", "red", "einsum", "matmul", "dot", "vdot", "stack",
          "concat", "roll", "transpose", "reshape", "expand_dims", "squeeze", "pad",
@@ -130,7 +130,38 @@ def size_params_of(t):
 # ---------------------------------------------------------------------------
 # deterministic data-wrapper content
 
+_DW_CACHE = {}
+
+
+def dw_alias(base: np.ndarray, mode: str) -> np.ndarray:
+    """views / copies of wrapped data (deduplicate_data_wrappers alphabet)"""
+    if mode == "same":
+        return base
+    if mode == "view":
+        return base.view()
+    if mode == "copy":
+        return base.copy()
+    if mode == "T":
+        return base.T
+    if mode == "rev":
+        return base[::-1]
+    if mode == "head3":
+        return base[:3]
+    if mode == "step2":
+        return base[::2]
+    raise ValueError(mode)
+
+
 def dw_data(t) -> np.ndarray:
+    if t[0] == "dwalias":
+        return dw_alias(dw_data(t[1]), t[2])
+    k = tkey(t)
+    if k not in _DW_CACHE:
+        _DW_CACHE[k] = _dw_data(t)
+    return _DW_CACHE[k]
+
+
+def _dw_data(t) -> np.ndarray:
     if t[0] == "dwv":
         return np.array(t[3], dtype=t[2]).reshape(t[4]) if len(t) > 4 else np.array(t[3], dtype=t[2])
     _, key, shape, dtype = t[:4]
@@ -185,6 +216,9 @@ class PtBuilder:
             if k not in self.data:
                 self.data[k] = dw_data(t)
             return pt.make_data_wrapper(self.data[k])
+        if h == "dwalias":
+            B(t[1])
+            return pt.make_data_wrapper(dw_alias(self.data[tkey(t[1])], t[2]))
         if h == "sp":
             return B.sp(t[1])
         if h == "full":
@@ -396,7 +430,7 @@ class NpEval:
             exp = tuple(E.dim(d) for d in t[2])
             assert a.shape == exp and a.dtype == np.dtype(t[3]), (t, a.shape, a.dtype)
             return a
-        if h in ("dw", "dwv"):
+        if h in ("dw", "dwv", "dwalias"):
             return dw_data(t)
         if h == "sp":
             return np.asarray(self.sizes[t[1]])
